@@ -19,8 +19,13 @@ def leaves_of(I):
 def register_leaf(I, t):
     """called when requires_grad is switched on: elements must be atoms X(index...)"""
     v = t.val
-    idx, _ = v.generic_index("lf")
-    e = v.at(idx)
+    if any(d.concrete() == 0 for d in v.shape):
+        return  # an empty tensor has no elements to differentiate with respect to
+    try:
+        idx, _ = v.generic_index("lf")
+        e = v.at(idx)
+    except core.Unsupported:
+        return
     if z3.is_app(e) and e.decl().kind() == z3.Z3_OP_UNINTERPRETED and e.num_args() > 0:
         leaves_of(I)[e.decl().name()] = t
         t.meta["leaf_decl"] = e.decl().name()
